@@ -126,6 +126,7 @@ pub fn run(sim: &Sim, prop: &str, tier: Tier) -> Outcome {
     for i in 0..n_src {
         let len = match (tier, sim.draw(60)) {
             (Tier::Thorough, 59) => sim.pick(&[28672usize, 28665, 1793]),
+            (Tier::Quick, 57) if sim.chance(5) => sim.pick(&[28672usize, 28665]),
             (_, 58) => sim.pick(&[1793usize, 1785, 700]),
             _ => sim.pick(&[15usize, 9, 22, 36, 8, 0, 57, 84, 64, 16]),
         };
@@ -314,8 +315,19 @@ pub fn run(sim: &Sim, prop: &str, tier: Tier) -> Outcome {
             }
         }
     }
+    // the original first frame is offered again somewhere (a sender that restarts)
+    if sim.chance(6) {
+        let at = sim.draw(feed.len() as u32 + 1) as usize;
+        feed.insert(at, (first, "first-frame-again"));
+        sim.count("chan_first_frame_repeated");
+    }
     // frames that keep arriving after the end of the stream / after completion
-    let extra = sim.draw(5);
+    let extra = if sim.draw(300) == 299 {
+        sim.probe("over_256_frames_offered_late");
+        300 + sim.draw(100)
+    } else {
+        sim.draw(5)
+    };
     for _ in 0..extra {
         let near = model.announced.min(feed.len() as u32 + 1);
         feed.push((synth_frame(sim, &addrs, near, model.announced), "late"));
